@@ -31,6 +31,8 @@ def dt_menu(dt):
         ("key-%s-empty-default" % dt, lambda p: M.Key("k%d" % p, dt, default="")),
         ("key-%s-hyphen-attr" % dt, lambda p: M.Key("k-%d" % p, dt, default=d2)),
         ("key-%s-attribute" % dt, lambda p: M.Key("k%d" % p, dt, attribute="Attr%d" % p)),
+        # attribute names are identifiers: a leading underscore is as good a name as any other
+        ("key-%s-underscore-attribute" % dt, lambda p: M.Key("k%d" % p, dt, attribute="_u%d" % p, default=d1)),
         ("multikey-%s" % dt, lambda p: M.MultiKey("m%d" % p, dt)),
         ("multikey-%s-defaults" % dt, lambda p: M.MultiKey("m%d" % p, dt, defaults=(d1, d2, d1))),
         ("pluskey-%s" % dt, lambda p: M.Key("+", dt, attribute="w%d" % p)),
@@ -160,8 +162,11 @@ def check_case(S, sch, hist, text, acc, mid):
                       "distinct objects", tags={"kind": "aliasing", "where": "within-result"})
         return False
     for sv in sects:
-        public = sorted(k for k in vars(sv) if not k.startswith("_"))
-        if public != sorted(sv.getSectionAttributes()):
+        # every declared attribute is an instance attribute, and no other public one exists (names the section
+        # value keeps for itself start with '_'; a DECLARED attribute may start with '_' too)
+        declared = set(sv.getSectionAttributes())
+        public = sorted(k for k in vars(sv) if not k.startswith("_") or k in declared)
+        if public != sorted(declared):
             acc.violation("attribute-set-mismatch", case, public, sorted(sv.getSectionAttributes()),
                           tags={"kind": "attribute-set"})
             return False
